@@ -228,7 +228,7 @@ func TestC06(t *testing.T) {
 			}
 		})
 		// 6. growth boundaries: a plain run of length L, then an escape, then a tail
-		if e.enumStage("growth", "plain run of L bytes (L in 0..70 and powers of two +-1 up to 4097) + each escape kind + tail", true) {
+		if e.enumStage("growth", "plain run of L bytes (L in 0..70 and powers of two +-1 up to 4097) + each escape kind + 15 tails of length 0..12 (word-at-a-time scanners: every offset modulo 8 and distance from the end)", true) {
 			escs := []string{`\n`, `\"`, `\\`, `A`, `é`, `€`, `😀`, `\ud800`, `\udc00x`, "\xff", "é"}
 			var Ls []int
 			for L := 0; L <= 70; L++ {
@@ -241,7 +241,8 @@ func TestC06(t *testing.T) {
 		growth:
 			for _, L := range Ls {
 				for _, esc := range escs {
-					for _, tail := range []string{"", "t", `\t`, `étail`} {
+					tails := []string{"", "t", `\t`, `étail`, "zz", "zzz", "zzzz", "zzzzz", "zzzzzz", "zzzzzzz", "zzzzzzzz", "zzzzzzzzz", "zzzzzzzzzzzz", `zzz\"`, `zzzzzzz\\`}
+					for _, tail := range tails {
 						idx++
 						if !e.cfg.Mine(idx) {
 							continue
